@@ -230,9 +230,22 @@ def macro_histories(ctx, corr, consts):
                 cmd.append(f'-U{nm}'); d.pop(nm, None)
         src = []
         expect = []
+        # a guarded header: the include-guard shortcut consults the macro table directly, so it is a client of the
+        # dictionary too: re-inclusion must be skipped exactly when the guard's most recent operation was a definition
+        guard, inner = names[0] + '_H', names[1] + '_IN'
+        hdr = os.path.join(ctx.scratch, f'g{it}.h')
+        hval = rng.randrange(1, 1000)
+        open(hdr, 'w').write(f'#ifndef {guard}\n#define {guard}\n#define {inner} {hval}\n#endif\n')
+        probe_names = names + [guard, inner]
         for _ in range(rng.randrange(3, 25)):
-            nm = rng.choice(names)
+            nm = rng.choice(probe_names)
             x = rng.random()
+            if x < 0.15:
+                src.append(f'#include "{hdr}"')
+                if guard not in d:
+                    d[guard] = ''
+                    d[inner] = str(hval)
+                continue
             if x < 0.4:
                 v = rng.randrange(1, 1000)
                 if nm in d:
@@ -242,10 +255,10 @@ def macro_histories(ctx, corr, consts):
                 src.append(f'#undef {nm}'); d.pop(nm, None)
             else:
                 src.append(f'#ifdef {nm}\nyes_{nm} {nm}\n#else\nno_{nm}\n#endif')
-                expect.append(f'yes_{nm} {d[nm]}' if nm in d else f'no_{nm}')
-        for nm in names:
+                expect.append(' '.join(f'yes_{nm} {d[nm]}'.split()) if nm in d else f'no_{nm}')
+        for nm in probe_names:
             src.append(f'#ifdef {nm}\nyes_{nm} {nm}\n#else\nno_{nm}\n#endif')
-            expect.append(f'yes_{nm} {d[nm]}' if nm in d else f'no_{nm}')
+            expect.append(' '.join(f'yes_{nm} {d[nm]}'.split()) if nm in d else f'no_{nm}')
         path = os.path.join(ctx.scratch, f'm{it}.c')
         open(path, 'w').write('\n'.join(src) + '\n')
         rc, o, e = sh([ctx.cc, '-E'] + cmd + [path], timeout=30)
